@@ -224,7 +224,7 @@ func answer(q string) (res string) {
 		case "s":
 			t = time.Unix(n, 0)
 		case "ms":
-			t = time.Unix(0, n*int64(time.Millisecond))
+			t = time.UnixMilli(n) // (the instant n milliseconds after the epoch, for every int64 n)
 		default:
 			return "err:precision"
 		}
